@@ -9,7 +9,8 @@ from props.streams_cat import BY_ID, QUICK, STREAMS
 from vfw import streams as vs
 from vfw.schema import absval as _absval
 
-BOUNDS = ("streams: props/streams_cat.py (8 quick / 10 thorough concrete concatenations, BER definite/indefinite/chunked, CER, DER, guided and "
+BOUNDS = ("sched_cat: catalogue entries with symbolic value slots (narrowed to two size classes) encoded by BER (definite/indefinite), CER, DER, once or twice back to back, one symbolic cut (two in the thorough tier), two stream kinds; "
+          "streams: props/streams_cat.py (8 quick / 10 thorough concrete concatenations, BER definite/indefinite/chunked, CER, DER, guided and "
           "schemaless); arrival schedule: k symbolic non-decreasing cut points in [0, |s|] (k = 1 quick: every 2-chunk partition and every empty "
           "poll; k = 2 thorough, k = 3 for streams <= 20 octets), end-of-stream signalled with or after the last octet (symbolic); three stream "
           "kinds: io.BytesIO subclass, seekable non-BytesIO double, non-seekable double behind the real CachingStreamWrapper")
@@ -115,6 +116,49 @@ def _der(o):
     return der_encoder.encode(o)
 
 
+def sched_cat(sid, codec, defMode, twice, kind, eof_with_last, c1, c2, **slots):
+    """Catalogue value with symbolic slots, encoded by the real encoder (codec/mode symbolic), once or twice back to back, arriving in up to three
+    chunks on a seekable (kind 1) or non-seekable (kind 2) non-blocking double: same objects as the complete bytes give, then stop."""
+    from props.C07 import _decoder, _encode
+
+    e = by_id(sid)
+    av = e.mk(**slots)
+    enc1 = _encode(codec, build(e.t, av), defMode, 0)
+    data = enc1 + enc1 if twice else enc1
+    total = len(data)
+    if c1 > total or c2 > total or (c2 >= 0 and c2 < c1):
+        raise Skip()
+    stream = vs.ArrivalStream(data, [c1] if c2 < 0 else [c1, c2], eof_with_last, seekable=(kind == 1))
+    it = iter(_decoder(codec).StreamingDecoder(stream, asn1Spec=mk_type(e.t)))
+    want = 2 if twice else 1
+    objs = []
+    underruns = 0
+    while True:
+        try:
+            o = next(it)
+        except StopIteration:
+            break
+        if o is None:
+            return "the decoder yielded None"
+        if isinstance(o, error.SubstrateUnderrunError):
+            underruns += 1
+            if not (stream.available < total or not stream.closed_by_writer):
+                return "underrun reported although all octets arrived and the stream is closed"
+            if underruns > 8:
+                return "no progress: more underruns than arrival events"
+            stream.advance()
+            continue
+        objs.append(o)
+        if len(objs) > want:
+            return "more objects than encodings"
+    if len(objs) != want:
+        return "yielded %d objects for %d encodings" % (len(objs), want)
+    for o in objs:
+        if not same(e.t, _absval(e.t, o), av):
+            return "object differs from the value that was encoded"
+    return None
+
+
 def sched1(sid, kind, eof_with_last, c1):
     return run_schedule(sid, kind, eof_with_last, (c1,))
 
@@ -132,9 +176,19 @@ def sched3(sid, kind, eof_with_last, c1, c2, c3):
     return run_schedule(sid, kind, eof_with_last, (c1, c2, c3))
 
 
+CAT_QUICK = ("int", "octs", "bits", "seqof_int", "choice.E", "utf8.EI")
 # streams without a definite-length container longer than the scaled buffer (those hit known finding F-cache-renumber of C11)
 SMALLBUF_OK = ("ber_indef_chunked", "two_ints_octs", "bits_chunked", "choice_expl_indef", "nest_indef", "hi_tag")
 OBLIGATIONS = []
+for e in all_entries():
+    if e.has("real") or e.has("corpus"):
+        continue
+    OBLIGATIONS.append(entry_obl("sched_cat", sched_cat, e, narrow=True, budget=150, thorough_budget=400,
+                                 extra={"codec": I(0, 2), "defMode": B, "twice": B, "kind": I(1, 2), "eof_with_last": B, "c1": I(0, 40), "c2": C(-1)},
+                                 extra_thorough={"c2": I(-1, 40)},
+                                 extra_shards=[{"codec": C(c_), "twice": C(t_)} for c_ in range(3) for t_ in (False, True)],
+                                 tiers=("quick", "thorough") if e.id in CAT_QUICK else ("thorough",),
+                                 doc="catalogue value (symbolic slots) x codec x mode, once/twice, arriving in two chunks (cut symbolic), seekable and non-seekable double"))
 for st in STREAMS:
     n = len(st.data)
     tiers = ("quick", "thorough") if st.id in QUICK else ("thorough",)
